@@ -30,7 +30,7 @@ def render(item, name):
     k = item["kind"]
     outer = attrs_text(item["attrs"])
     ms = item["members"]
-    derive = "#[derive(serde::Serialize, Default)]\n"
+    derive = "#[derive(serde::Serialize, Default, attrdump::AttrDump)]\n"
     if k == "named_struct":
         body = "".join(attrs_text(m["attrs"], "    ") + f"    pub {m['name']}: u32,\n" for m in ms)
         return f"{outer}{derive}pub struct {name} {{\n{body}}}\n"
@@ -51,7 +51,7 @@ def render(item, name):
         return f"{outer}{derive}pub enum {name} {{\n{body}}}\n"
     if k == "union":
         body = "".join(attrs_text(m["attrs"], "    ") + f"    pub {m['name']}: {'u32' if m['name'] == 'a' else 'f32'},\n" for m in ms)
-        return f"{outer}#[derive(Clone, Copy)]\npub union {name} {{\n{body}}}\n"
+        return f"{outer}#[derive(Clone, Copy, attrdump::AttrDump)]\npub union {name} {{\n{body}}}\n"
     if k == "generic_struct":
         body = (attrs_text(ms[0]["attrs"], "    ") + "    pub first: T,\n" + attrs_text(ms[1]["attrs"], "    ") +
                 "    #[serde(skip)]\n    pub second: std::marker::PhantomData<&'a T>,\n")
@@ -64,20 +64,55 @@ def render(item, name):
 
 
 def probe(kind, name):
+    """(serde_json of a default value, size_of, the attributes a derive placed after #[typeshare] was handed)"""
     if kind == "union":
-        return f'(String::new(), std::mem::size_of::<{name}>())'
+        return f'(String::new(), std::mem::size_of::<{name}>(), ATTR_DUMP)'
     if kind == "generic_struct":
-        return f'(serde_json::to_string(&{name}::<\'static, u32>::default()).unwrap(), std::mem::size_of::<{name}<\'static, u32>>())'
+        return f'(serde_json::to_string(&{name}::<\'static, u32>::default()).unwrap(), std::mem::size_of::<{name}<\'static, u32>>(), ATTR_DUMP)'
     if kind == "const":
-        return f'({name.upper()}.to_string(), 0usize)'
-    return f'(serde_json::to_string(&{name}::default()).unwrap(), std::mem::size_of::<{name}>())'
+        return f'({name.upper()}.to_string(), 0usize, "")'
+    if kind == "alias":
+        return f'(serde_json::to_string(&{name}::default()).unwrap(), std::mem::size_of::<{name}>(), "")'
+    return f'(serde_json::to_string(&{name}::default()).unwrap(), std::mem::size_of::<{name}>(), ATTR_DUMP)'
 
 
 def module(i, case, which):
     item = case["item"] if which == "a" else case["twin"]
     return (f"pub mod {which}{i} {{\n    #![allow(dead_code, unused_imports)]\n    use typeshare::typeshare;\n" +
             "".join("    " + l + "\n" for l in render(item, "Item").splitlines()) +
-            f"    pub fn probe() -> (String, usize) {{ {probe(case['item']['kind'], 'Item')} }}\n}}\n")
+            f"    pub fn probe() -> (String, usize, &'static str) {{ {probe(case['item']['kind'], 'Item')} }}\n}}\n")
+
+
+ATTRDUMP_RS = r"""
+extern crate proc_macro;
+use proc_macro::{Delimiter, TokenStream, TokenTree};
+
+fn walk(ts: TokenStream, out: &mut Vec<String>) {
+    let mut it = ts.into_iter().peekable();
+    while let Some(t) = it.next() {
+        match t {
+            TokenTree::Punct(p) if p.as_char() == '#' => {
+                if let Some(TokenTree::Group(g)) = it.peek() {
+                    if g.delimiter() == Delimiter::Bracket {
+                        out.push(g.stream().to_string());
+                        it.next();
+                    }
+                }
+            }
+            TokenTree::Group(g) => walk(g.stream(), out),
+            _ => {}
+        }
+    }
+}
+
+/// every attribute of the item, of its fields and of its variants, in source order
+#[proc_macro_derive(AttrDump)]
+pub fn attr_dump(input: TokenStream) -> TokenStream {
+    let mut v = Vec::new();
+    walk(input, &mut v);
+    format!("pub const ATTR_DUMP: &str = {:?};", v.join(" ;; ")).parse().unwrap()
+}
+"""
 
 
 def crate_dir():
@@ -85,8 +120,12 @@ def crate_dir():
     os.makedirs(os.path.join(d, "src"), exist_ok=True)
     open(os.path.join(d, "Cargo.toml"), "w").write(
         '[package]\nname = "c19probe"\nversion = "0.0.0"\nedition = "2021"\n\n[workspace]\n\n[dependencies]\n'
-        f'typeshare = {{ path = "{common.REPO}/lib" }}\nserde = {{ version = "1", features = ["derive"] }}\nserde_json = "1"\n\n[profile.dev]\nopt-level = 0\ndebug = false\n')
+        f'typeshare = {{ path = "{common.REPO}/lib" }}\nserde = {{ version = "1", features = ["derive"] }}\nserde_json = "1"\nattrdump = {{ path = "attrdump" }}\n\n[profile.dev]\nopt-level = 0\ndebug = false\n')
     shutil.copy(os.path.join(common.REPO, "Cargo.lock"), os.path.join(d, "Cargo.lock"))
+    # the observer of "same other attributes": a derive macro (std only) that records every attribute it is handed, in order
+    os.makedirs(os.path.join(d, "attrdump", "src"), exist_ok=True)
+    open(os.path.join(d, "attrdump", "Cargo.toml"), "w").write('[package]\nname = "attrdump"\nversion = "0.0.0"\nedition = "2021"\n\n[lib]\nproc-macro = true\n')
+    open(os.path.join(d, "attrdump", "src", "lib.rs"), "w").write(ATTRDUMP_RS)
     common._SCRATCH.append(d)
     return d
 
@@ -97,7 +136,7 @@ def build_and_run(d, cases, which_sets):
     calls = []
     for i, which in which_sets:
         src += module(i, cases[i], which)
-        calls.append(f'    let (j, s) = {which}{i}::probe(); println!("{{}}\\t{which}\\t{{}}\\t{{}}", {i}, s, j);')
+        calls.append(f'    let (j, s, a) = {which}{i}::probe(); println!("{{}}\\t{which}\\t{{}}\\t{{:?}}\\t{{}}", {i}, s, a, j);')
     src += "fn main() {\n" + "\n".join(calls) + "\n}\n"
     open(os.path.join(d, "src", "main.rs"), "w").write(src)
     env = dict(os.environ)
@@ -109,8 +148,8 @@ def build_and_run(d, cases, which_sets):
         return None, r.stderr
     out = {}
     for line in r.stdout.splitlines():
-        i, which, size, js = line.split("\t", 3)
-        out[(int(i), which)] = (js, int(size))
+        i, which, size, attrs, js = line.split("\t", 4)
+        out[(int(i), which)] = (js, int(size), attrs)
     return out, ""
 
 
@@ -154,7 +193,8 @@ def run(chk):
         for i in part:
             a, b = an[i], tw[i]
             events.append({"case": i, "annotated_compiles": a is not None, "twin_compiles": b is not None,
-                           "same_json": a is not None and b is not None and a[0] == b[0], "same_size": a is not None and b is not None and a[1] == b[1]})
+                           "same_json": a is not None and b is not None and a[0] == b[0], "same_size": a is not None and b is not None and a[1] == b[1],
+                           "same_attrs": a is not None and b is not None and a[2] == b[2], "attrs": [a[2] if a else None, b[2] if b else None]})
     chk.extra["rustc_invocations"] = stats["compiles"]
     chk.extra["compile_errors_sample"] = stats.get("errors", [])[:3]
     if all(not e["twin_compiles"] for e in events):
@@ -173,7 +213,7 @@ def run(chk):
         if c["item"]["kind"] == "enum" and 2 in at and 3 in at:
             where += "(same-variant)"
         kind = ("compiles-only-twin" if e["twin_compiles"] and not e["annotated_compiles"] else "compiles-only-annotated" if e["annotated_compiles"] and not e["twin_compiles"]
-                else "json-differs" if not e["same_json"] else "size-differs")
+                else "json-differs" if not e["same_json"] else "size-differs" if not e["same_size"] else "surviving-attributes-differ")
         chk.mismatch(f"C19/{c['item']['kind']}/{where}/{c['case']['helper']}/{kind}",
                      f"{c['item']['kind']} with helper {c['case']['helper']} at {where}: {kind}", {"case": c["case"], "at": at, "annotated": render(c["item"], "Item")},
                      "Annotation!Transparent", e)
